@@ -5,6 +5,8 @@
 //   id  <name hex>                            -> ordinary | special
 //   flt <text hex>                            -> ok <float|double|ldouble> <bits of (double)value> | error:<class>
 #include <chaiscript/chaiscript.hpp>
+#include <cmath>
+#include <cstdlib>
 #include "vcommon.hpp"
 using namespace chaiscript;
 
@@ -71,6 +73,23 @@ int main() {
     } else if (w.size() == 2 && w[0] == "flt") {
       const std::string text = vh::hex_decode(w[1]);
       out = guarded([&] { return int_show(chai.eval(text)) + probe(chai, text); });
+    } else if (w.size() == 2 && w[0] == "fltl") {
+      // a long double literal: distance (in long double ulps) from what strtold makes of the same text
+      const std::string text = vh::hex_decode(w[1]);
+      out = guarded([&] {
+        Boxed_Value bv = chai.eval(text);
+        if (!bv.get_type_info().bare_equal(user_type<long double>())) return std::string("ok other:") + bv.get_type_info().bare_name();
+        const long double got = boxed_cast<long double>(bv);
+        std::string body = text;
+        while (!body.empty() && (body.back() == 'l' || body.back() == 'L')) body.pop_back();
+        const long double ref = std::strtold(body.c_str(), nullptr);
+        if (std::isinf(ref) || std::isinf(got)) return std::string(std::isinf(ref) == std::isinf(got) ? "okl 0" : "okl 1000000000");
+        if (ref == got) return std::string("okl 0");
+        const long double ulp = std::fabs(std::nextafterl(ref, INFINITY) - ref);
+        long double d = std::fabs(got - ref) / (ulp > 0 ? ulp : 1);
+        if (d > 1e9L) d = 1e9L;
+        return "okl " + std::to_string(static_cast<long long>(d + 0.5L));
+      });
     } else if (w.size() == 2 && w[0] == "str") {
       const std::string src = "\"" + vh::hex_decode(w[1]) + "\"";
       out = guarded([&] { return "ok " + vh::hex_encode(chai.eval<std::string>(src)); });
